@@ -53,6 +53,13 @@ func runWMPT(args []string) (map[string]any, error) {
 			} else {
 				h.Mode = "tlc-shared"
 			}
+			// rotate the TLC behaviours over the key universes (ranks keep their order)
+			switch (nTLC / 3) % 3 {
+			case 1:
+				h.Uni, h.Sub = "head", exec.SubFor(int64(tid), 10)
+			case 2:
+				h.Uni, h.Sub = "tail", exec.SubFor(int64(tid), 10)
+			}
 			exec.RunWMPT(w, in, st, tid, h)
 		}
 		f.Close()
